@@ -57,6 +57,12 @@ pub fn gen(seed: u64, tier: Tier, k: u64) -> Value {
         let hint = if source == "decoded" { Hint::Yes } else { Hint::No };
         items.push(Item { len, ent: *rng.pick(&[Ent::Low4, Ent::Mid6, Ent::High]), hint, src: Src::Mem, dup_of: None, cat_of: None });
     }
+    if k % 8 >= 4 {
+        // one content well beyond 1 MiB (read in one call by some of the streams below)
+        let at = rng.usize_below(items.len() + 1);
+        let hint = if source == "decoded" { Hint::Yes } else { Hint::No };
+        items.insert(at, Item { len: rng.range(1_100_000, 2_600_000) as usize, ent: *rng.pick(&[Ent::Low4, Ent::High]), hint, src: Src::Mem, dup_of: None, cat_of: None });
+    }
     let case = ContentCase { seed: rng.next(), comp, cached: false, items };
     json!({"source": source, "content": case.to_json(), "ops_seed": rng.next()})
 }
@@ -96,6 +102,8 @@ impl Mon<'_> {
                 return;
             }
             let want = match self.rng.below(8) {
+                // (a content beyond 1 MiB is asked for in a single call half of the time)
+                _ if got.is_empty() && exp.len() > 1_000_000 && self.rng.chance(1, 2) => exp.len() + 10,
                 0 => 0,
                 1 => 1,
                 2 => exp.len() + 10,
@@ -348,6 +356,49 @@ pub fn run(desc: &Value, ctx: &Ctx) -> CaseOut {
                     nonfirst += 1;
                 }
                 mon.check_region(&region, &exp, 0);
+            }
+            // file-backed source whose file is cut short AFTER the pack was opened: the slice view and the stream view of a
+            // content that now ends beyond the end of the file either fail, or give bytes that ARE the content's (a stream may
+            // stop early); neither may hand out bytes that were never stored (small tables are held in memory, no mapping)
+            if source == "file" && ops_seed % 3 == 0 {
+                let bytes = std::fs::read(&created.path).unwrap_or_default();
+                let view = indep::decode_file(&bytes);
+                let raw: Vec<(usize, u64)> = match view.content_pack().map(|p| &p.body) {
+                    Some(indep::PackBody::Content { contents, .. }) => created
+                        .addrs
+                        .iter()
+                        .enumerate()
+                        .filter_map(|(i, a)| contents.get(a.content_id.into_u32() as usize).and_then(|r| r.raw_offset).map(|o| (i, o)))
+                        .filter(|(i, _)| cc.items[*i].len >= 16)
+                        .collect(),
+                    _ => vec![],
+                };
+                if let Some((i, off)) = raw.iter().max_by_key(|(_, o)| *o).cloned() {
+                    let exp = cc.bytes_of(i);
+                    let cut = off + exp.len() as u64 / 2;
+                    if let Ok(Some(region)) = pack.get_content(created.addrs[i].content_id) {
+                        if std::fs::OpenOptions::new().write(true).open(&created.path).and_then(|f| f.set_len(cut)).is_ok() {
+                            out.obs.inc("views_after_the_file_was_cut_short");
+                            match region.get_slice(jbk::Offset::from(0u64), exp.len()) {
+                                Ok(sl) if sl.as_ref() != &exp[..] => out.violate(
+                                    json!({"kind": "view", "view": "get_slice-after-truncation", "source": source, "profile": profile()}),
+                                    format!("C13 [file]: the file was cut short inside content {i}: get_slice still answers Ok, with bytes that are not the content's"),
+                                    json!({}),
+                                ),
+                                _ => {}
+                            }
+                            let mut got = vec![];
+                            let res = region.stream().read_to_end(&mut got);
+                            if res.is_ok() && (got.len() > exp.len() || got[..] != exp[..got.len()]) {
+                                out.violate(
+                                    json!({"kind": "view", "view": "stream-after-truncation", "source": source, "profile": profile()}),
+                                    format!("C13 [file]: the file was cut short inside content {i}: the stream answers Ok with {} bytes that are not a prefix of the content", got.len()),
+                                    json!({}),
+                                );
+                            }
+                        }
+                    }
+                }
             }
         }
         out.obs.add("contents_not_first_in_source", nonfirst);
